@@ -88,9 +88,8 @@ Proof.
     + exfalso. destruct (alloc_spec s' n c A' Hn) as [[E' _]|(b & _ & _ & _ & E' & _)]; congruence.
 Qed.
 
-Lemma free_not_live_noop s a : AInv s -> off s <= a < off s + size s -> (forall n, ~ is_live s a n) ->
-  free true s a = Ok s.
-Proof. intros [P _] Hr Hn. apply free_noop; auto. Qed.
+Lemma free_not_live_noop s a : AInv s -> (forall n, ~ is_live s a n) -> free true s a = Ok s.
+Proof. intros [P _] Hn. apply free_noop; auto. Qed.
 
 Lemma double_free_is_noop_proof s a n s' : AInv s -> is_live s a n -> free true s a = Ok s' ->
   free true s' a = Ok s'.
@@ -100,8 +99,7 @@ Proof.
   destruct (free_live s a n A Hl) as (s2 & _ & _ & E2 & _ & _ & _ & _ & _ & Kp & Ko & Ks).
   rewrite E1 in E2. inv E2.
   apply free_not_live_noop; auto.
-  - unfold hi in Hr. rewrite Ko, Ks. auto.
-  - intros n' Hl'. apply U in Hl'. tauto.
+  intros n' Hl'. apply U in Hl'. tauto.
 Qed.
 
 (* ---- partitions (server.py) -------------------------------------------------------------- *)
